@@ -8,33 +8,35 @@ use crate::transport::DeviceType;
 mod script;
 use script::*;
 
-/// C13 K<= (BOUND: STEPS = 12 scripted accesses, tag length <= 2 so that two iterations of the retry loop
-/// fit; ASCII tag bytes): the mount tag returned by the real `read_mount_tag` has the length and the bytes
-/// of ONE configuration, for every placement of configuration changes between the byte reads.
+/// C13 K<= (BOUND: STEPS = 12 scripted accesses, tag length 1 or 2 so that two or three iterations of the
+/// retry loop fit; ASCII tag bytes): the mount tag returned by the real `read_mount_tag` has the length and
+/// the bytes of ONE configuration, for every placement of configuration changes between the byte reads.
 #[kani::proof]
-#[kani::unwind(18)]
+#[kani::unwind(5)]
 fn c13_9p_tag_untorn() {
     let t = ScriptT::any(DeviceType::_9P);
     t.assume_honours_generation();
-    let mut k = 0;
-    while k < STEPS {
-        kani::assume(u16::from_le_bytes([t.cfg[k][0], t.cfg[k][1]]) <= 2);
-        kani::assume(t.cfg[k][2] < 0x80 && t.cfg[k][3] < 0x80);
-        k += 1;
+    macro_rules! shape {
+        ($k:expr) => {
+            kani::assume((t.cfg[$k][0] == 1 || t.cfg[$k][0] == 2) && t.cfg[$k][1] == 0);
+            kani::assume(t.cfg[$k][2] < 0x80 && t.cfg[$k][3] < 0x80);
+        };
     }
+    shape!(0); shape!(1); shape!(2); shape!(3); shape!(4); shape!(5);
+    shape!(6); shape!(7); shape!(8); shape!(9); shape!(10); shape!(11);
     let r = read_mount_tag(&t);
     let n = t.time();
     if let Ok(tag) = r {
         let len = tag.len();
+        assert!(len == 1 || len == 2, "C13: tag length is not a length the device exposed");
         assert!(n >= len + 3, "C13: too few configuration accesses for the returned tag");
         let k = n - (len + 3);
         assert!(t.acc_at(k) == Acc::Gen && t.acc_at(n - 1) == Acc::Gen && t.gener[k] == t.gener[n - 1], "C13: tag not bracketed by equal generation reads");
-        assert!(u16::from_le_bytes([t.cfg[k][0], t.cfg[k][1]]) as usize == len, "C13: torn mount tag: length from another configuration generation");
+        assert!(t.cfg[k][0] as usize == len, "C13: torn mount tag: length from another configuration generation");
         let b = tag.as_bytes();
-        let mut i = 0;
-        while i < len {
-            assert!(b[i] == t.cfg[k][2 + i], "C13: torn mount tag: byte from another configuration generation");
-            i += 1;
+        assert!(b[0] == t.cfg[k][2], "C13: torn mount tag: byte 0 from another configuration generation");
+        if len == 2 {
+            assert!(b[1] == t.cfg[k][3], "C13: torn mount tag: byte 1 from another configuration generation");
         }
     }
 }
